@@ -16,6 +16,9 @@ CHECKS = {
  "C17": ("exploration", "PBT over initialiser scripts x threads x seed kinds with invariants (mutual exclusion, single success, seed continuity, drop ledger) and the blocked-state detector for get()",
          "Generated scripts of failing / panicking / succeeding initialisers on 1..8 threads with spin rendezvous; invariants are checked on the joined history and a drop ledger; a blocking get() is caught as a deadlock of the case.",
          "thread interleavings are sampled; liveness of get() is a bounded-safety reading (no all-blocked state in the explored executions)", "4/C17"),
+ "C04": ("exploration", "differential PBT: one generated tree materialised as directory, zip, tar and embedded table, each compared with the tree itself (reference model); concurrent readers; fuzz target c04 (archives vs model)",
+         "Random trees (unicode, spaces, long paths, shared ids, empty directories, empty tree) and archive layouts (member order, implicit directories, './' prefix, stored/deflated, in-memory/file-backed); read, read_dir, exists and the absence of everything else are checked against the generated tree on every source, from 1..4 threads at once. The Embedded source is produced by the embed! macro's own expansion function run on the directory.",
+         "names follow the crate's documented rule (no '.', UTF-8); symbolic links are outside the documented domain; the macro's compile-time path is additionally exercised on fixed trees", "4/C04"),
  "C05": ("exploration", "stateful PBT over generated dependency DAGs (recipes stored in the source) and edit/notification histories; oracle = pure model interpreter (local consistency with the current source and cache) + reload-order invariant; sentinel quiescence barrier",
          "Generated worlds of up to 9 compound nodes over leaves, directories and raw files with rewiring, breaking, repairing, creating and deleting edits, batched / shuffled / duplicated / noisy notifications, in hot_reload() and enhance_hot_reloading modes. After a barrier every cached asset connected to a notified entry must equal a model evaluation of its recipe; failing reloads keep the old value; no dependent is reloaded before a dependency within a pass.",
          "trusts the model interpreter of the recipe language and the shadow recorder (harness code); cyclic look-ups and not-tracked-by-design situations are excluded by construction and counted", "4/C05"),
@@ -34,6 +37,12 @@ CHECKS = {
  "C10": ("exploration", "stateful PBT: histories on the same keys over four cache constructors with a frozen-entry model",
          "Random histories of load / load_owned / get_or_insert / remove / take / clear with notified edits, a load racing an insertion and barriers; every entry the statement declares non-reloadable must keep its creation value, ReloadId::NEVER, silent watchers and the same Handle::get() address and content.",
          "reloadable entries are observed to reload in the same histories, so the reloader is live when frozen entries are checked", "4/C10"),
+ "C11": ("exploration", "PBT: directory listings computed from the generated tree (reference model) over five source kinds, four extension lists + Arc, unreadable sub-directories, pre-loaded subsets",
+         "load_dir / load_rec_dir ids, iter and iter_cached are compared with listings computed from the generated tree, for the root, nested, missing and unreadable directories.",
+         "element loaders always succeed; unreadable directories are simulated by a wrapping source that fails read_dir for a subtree", "4/C11"),
+ "C12": ("exploration", "PBT + bounded-exhaustive enumeration of (entry x notification kind) fed to the crate's real notify handler through hooks, compared with a lexical reference of path_of's inverse; round-trip checks; real inotify histories with a sentinel barrier",
+         "Synthetic notifications of every kind for every entry of generated (and one fixed, exhaustively enumerated) trees under one or two roots, with '.'/'..' spellings, vanished objects, outside / dotted / non UTF-8 paths; the events sent must be exactly the entry (+ parent directory for create/rename/remove). Real write/delete/rename/mkdir histories on a watched temp dir must leave every directory handle equal to the disk.",
+         "uses hooks id_of_path / event_handler / event_channel; the real part depends on inotify (self-test, skipped and counted otherwise) and uses polling with generous bounds", "4/C12"),
  "C13": ("exploration", "stateful PBT with a drop ledger and a checking global allocator over four value layouts; shaped races (insertion rendezvous, guard across reload); exhaustive wrong-type views per cached handle",
          "Histories of load / load_owned / get_or_insert / remove / take / clear / reload / failing reload / guarded reload / racing loads; after every step the live tracked values must be exactly those reachable through the cache or owned by the caller.",
          "ledger and allocator wrapper are harness code; races are shaped and sampled", "4/C13"),
@@ -50,7 +59,7 @@ CHECKS = {
          "Every initial id x every op sequence up to length 2 (quick) / 3 (thorough) over a 6-id sub-pool is enumerated against the max model; random sequences over 48 real ids; concurrent offers and spin-rendezvous race rounds are checked by accounting (final = max, each growth told once).",
          "ReloadIds come from real reloads of an in-memory source; interleavings are sampled", "4/C18"),
 }
-NA_REASON = "check not built yet in this session (work in progress; the design in DESIGN.md section 4 applies) - not a limit of the technique"
+NA_REASON = "(none) check not built yet in this session (work in progress; the design in DESIGN.md section 4 applies) - not a limit of the technique"
 
 props = [json.loads(l) for l in open('/verif/properties.jsonl')]
 def commits(pattern):
